@@ -31,7 +31,7 @@ def short(x):
 
 class C16(Prop):
     id = "C16"
-    props_file = "Props/C16.v"
+    props_file = ["Props/C16.v", "Props/C16_Bridge.v"]
     coq_imports = ["From ONL Require Import Base.Cmp Tcp.Sink Tcp.Sender Tcp.Loop."]
     n_quick = 1000
     n_thorough = 20000
@@ -45,6 +45,9 @@ class C16(Prop):
                        "histories (as C17); non-trivial = at least 8 events. distinct by hash of the case")
     trusted_base = [
         "TCPSink is driven through its public put(); the ACK packet handed to sink.out is what is compared",
+        "vlib/translate.py (Python ast, fail closed; observation/effect tables in props/sink_tie.py) regenerates coq/Gen/Extracted_sink.v from "
+        "TCPSink.put of the tree under test before every build; C16_gen_sink_put (Props/C16_Bridge.v) bridges it to sink_step of the "
+        "hand-written model",
         "closed loop: real TCPPacketGenerator (observed through the subclass/taps of props/tcp_common.py), real TCPSink, two real "
         "onl.netdev.wire.Wire objects with a constant delay_dist, harness droppers (drop by transmission index) between sender/sink and the wires; "
         "the whole run of the model (coq/Tcp/Loop.v, its own agenda) is compared with the recorded run: every sender event with its instant, "
@@ -70,6 +73,12 @@ class C16(Prop):
         "is bounded (needs real-time reasoning about RTO doubling against the delivery of the first unacknowledged segment); that part is tested by "
         "runs to quiescence on random drop patterns",
     ]
+
+    # ---- second tie: TCPSink.put translated from the tree under test before the Coq build (fail closed) ----
+    def pre_build(self):
+        from vlib import framework as fw
+        from props import sink_tie
+        sink_tie.write_extracted_sink(fw.REPO, fw.COQ)
 
     # ---- generation -------------------------------------------------------------------------
     def gen_case(self, rng, tier):
